@@ -39,8 +39,8 @@ PROPS = {
             "BytesMut capacity/reserve behaviour (batch boundaries compared only for bursts <= 8000 bytes)",
         ],
         "assumptions": [
-            "chunking independence and 'waits only while incomplete' are proved for body readers that never return InsufficientBytes (Honest); the v5 readers (c5, b5) violate this: recorded finding, witness theorems",
-            "never-panics is decided by the correspondence under catch_unwind (the model is total); b5 unreachable!() recorded finding",
+            "chunking independence and 'waits only while incomplete' are proved unconditionally for the v5 copies (c5, b5 seal a body reader's InsufficientBytes into MalformedPacket since 5359110) and, for the v4 copies (c4, b4 propagate the body reader's error unchanged), for body readers that never return InsufficientBytes (Honest) - true of the v4 readers by inspection (no length() call), watched by the monitor needmore-on-complete-frame",
+            "never-panics of the whole decoders (body readers included) is decided by the correspondence under catch_unwind; for the framing/dispatch layer it is a theorem (decode1_never_panics; the b5 unreachable!() was repaired in c0aab5e)",
         ],
     },
     "C04": {
